@@ -79,3 +79,18 @@ Print Assumptions C07_summary_title.
 Theorem C07_forced_postmask_only_restricts : forall i, i_hidden i = true -> may_read (with_postmask i) = true -> may_read i = true.
 Proof. exact forced_postmask_only_restricts. Qed.
 Print Assumptions C07_forced_postmask_only_restricts.
+
+(* NOT covered by the theorems above, and false of the code (known findings): the entry points take the board
+   number and the board name separately and nothing ties the two — permission is evaluated on the numbered board,
+   the files read are the named board's (known finding bid-name-mismatch) ... *)
+Theorem C07_pair_mismatch_refuted : exists i_bid i_name, consistent i_bid = true /\ consistent i_name = true /\
+  may_read i_name = false /\ ep_read_post_pair i_bid 77 196 = Data 196.
+Proof. exact pair_mismatch_refuted. Qed.
+Print Assumptions C07_pair_mismatch_refuted.
+
+(* ... and the exported helper LoadGeneralArticlesSameCreateTime returns index entries without looking at any
+   caller (known finding unguarded-LoadGeneralArticlesSameCreateTime) *)
+Theorem C07_unguarded_helper_refuted : exists i, consistent i = true /\ may_read i = false /\
+  ep_load_same_create_time 2 [1; 2] = Data [1; 2].
+Proof. exact unguarded_helper_refuted. Qed.
+Print Assumptions C07_unguarded_helper_refuted.
